@@ -13,10 +13,13 @@ Max(a, b) == IF a > b THEN a ELSE b
 TraceInit == /\ tid \in 1 .. Len(Traces) /\ l = 1 /\ Init /\ TLCSet(tid, 1)
 
 Event(ev) ==
-    CASE ev.ev = "Write" -> file' = file \o ev.data /\ UNCHANGED <<pos, buffer, pending, emitted>>
+    CASE ev.ev = "Write" -> file' = file \o ev.data /\ UNCHANGED <<pos, buffer, pending, emitted, on>>
+      [] ev.ev = "Start" -> Start
+      [] ev.ev = "Stop" -> Stop
       [] ev.ev = "Emit" -> EmitRec /\ Head(pending) = ev.rec
       [] ev.ev = "ObsBuffer" -> buffer = ev.buffer /\ pending = <<>> /\ Same
-      [] ev.ev = "End" -> pos = Len(file) /\ pending = <<>> /\ Same
+      \* (a stopped source owes nothing: the cycle in progress *may* finish -- behind a stopped map_async it does not)
+      [] ev.ev = "End" -> (on => (pos = Len(file) /\ pending = <<>>)) /\ Same
       [] OTHER -> FALSE
 
 TraceNext ==
